@@ -15,44 +15,44 @@ use std::convert::TryFrom;
 use std::str::FromStr;
 
 // ------------------------------------------------------------------ tunable sizes (quick tier)
-pub const THOROUGH_MULT: usize = 20;
+pub const THOROUGH_MULT: usize = 10;
 pub const PLAYOUT_PLIES: usize = 300;
 
-pub const SCENARIOS: usize = 500; // synthesized special-move scenarios per stream
-pub const C01_POS: usize = 20_000;
-pub const C01_LEGAL_QUICK: usize = 150;
+pub const SCENARIOS: usize = 1500; // synthesized special-move scenarios per stream
+pub const C01_POS: usize = 80000;
+pub const C01_LEGAL_QUICK: usize = 400;
 pub const C01_LEGAL_THOROUGH: usize = 3000;
-pub const C02_POSITIONS: usize = 1_500; // x ~30 legal moves = MAKE lines
-pub const C03_POS: usize = 16_000;
-pub const C04_POS: usize = 16_000;
-pub const C05_PLAYOUTS: usize = 60; // x <=300 plies
-pub const C05_TREES: usize = 16; // complete trees, depth 3 quick / 4 thorough (thorough: x2 trees)
+pub const C02_POSITIONS: usize = 4500; // x ~30 legal moves = MAKE lines
+pub const C03_POS: usize = 60000;
+pub const C04_POS: usize = 60000;
+pub const C05_PLAYOUTS: usize = 200; // x <=300 plies
+pub const C05_TREES: usize = 40; // complete trees, depth 3 quick / 4 thorough (thorough: x2 trees)
 pub const C05_TREE_MAX_LINES: usize = 3_000; // roots whose complete tree is bigger are not used (thorough: x8)
-pub const C06_POS: usize = 6_000;
-pub const C06_FENP: usize = 8_000;
-pub const C06_BFEN: usize = 6_000;
-pub const C07_FENP: usize = 30_000;
-pub const C07_BLD: usize = 15_000;
-pub const C07_BPARSE: usize = 15_000;
-pub const C08_POS: usize = 16_000;
-pub const C09_POSITIONS: usize = 40; // x several hundred single-component variants
+pub const C06_POS: usize = 24000;
+pub const C06_FENP: usize = 30000;
+pub const C06_BFEN: usize = 20000;
+pub const C07_FENP: usize = 90000;
+pub const C07_BLD: usize = 45000;
+pub const C07_BPARSE: usize = 45000;
+pub const C08_POS: usize = 48000;
+pub const C09_POSITIONS: usize = 120; // x several hundred single-component variants
 pub const C09_COLL: u64 = 2_000_000;
 pub const C09_COLL_THOROUGH: u64 = 30_000_000;
-pub const C10_PROGRAMS: usize = 500;
-pub const C11_PROGRAMS: usize = 100;
-pub const C12_POSITIONS: usize = 350; // x all spellings of all moves
-pub const C12_MUTATED: usize = 8_000;
+pub const C10_PROGRAMS: usize = 1200;
+pub const C11_PROGRAMS: usize = 160;
+pub const C12_POSITIONS: usize = 1000; // x all spellings of all moves
+pub const C12_MUTATED: usize = 24000;
 pub const C12_REJECT_PER_POS: usize = 12;
-pub const C13_RANDOM: usize = 20_000;
-pub const C14_PROGRAMS: usize = 5_000;
+pub const C13_RANDOM: usize = 60000;
+pub const C14_PROGRAMS: usize = 20000;
 pub const C15_FILLINGS_QUICK: usize = 2;
 pub const C15_FILLINGS_THOROUGH: usize = 16;
 pub const C16_NOISE_QUICK: usize = 2;
 pub const C16_NOISE_THOROUGH: usize = 8;
-pub const C17_POSITIONS: usize = 3_000;
-pub const C18_NULL: usize = 16_000;
-pub const C19_PROGRAMS: usize = 5_000;
-pub const C20_RANDOM: usize = 4_000;
+pub const C17_POSITIONS: usize = 12000;
+pub const C18_NULL: usize = 60000;
+pub const C19_PROGRAMS: usize = 10000;
+pub const C20_RANDOM: usize = 12000;
 
 pub struct Ctx {
     pub rng: Rng,
